@@ -49,11 +49,13 @@ type listedPkg struct {
 	XTestGoFiles []string
 	CgoFiles     []string
 	Standard     bool
+	Incomplete   bool
+	DepsErrors   []struct{ Err string }
 	Error        *struct{ Err string }
 }
 
 func goList(dir string, patterns ...string) ([]listedPkg, error) {
-	cmd := exec.Command("go", append([]string{"list", "-e", "-json=ImportPath,Dir,GoFiles,TestGoFiles,XTestGoFiles,CgoFiles,Standard,Error"}, patterns...)...)
+	cmd := exec.Command("go", append([]string{"list", "-e", "-json=ImportPath,Dir,GoFiles,TestGoFiles,XTestGoFiles,CgoFiles,Standard,Incomplete,DepsErrors,Error"}, patterns...)...)
 	cmd.Dir = dir
 	var out, errb bytes.Buffer
 	cmd.Stdout, cmd.Stderr = &out, &errb
@@ -157,8 +159,8 @@ func checkC09(replay string) {
 	var okPkgs []string
 	dropped := map[string]string{}
 	for _, p := range listed {
-		if p.Error != nil {
-			dropped[p.ImportPath] = "go list error"
+		if p.Error != nil || p.Incomplete || len(p.DepsErrors) > 0 {
+			dropped[p.ImportPath] = "does not load offline (missing dependency in the module cache)"
 			continue
 		}
 		if ok, why := preconditionHolds(p); !ok {
